@@ -478,13 +478,15 @@ struct NameWalk
   int pointers = 0;
 };
 // [lo,hi): extent the in-place part (up to and including the first pointer / the terminator) must stay in.
-inline NameWalk walkName(const Bytes &m, size_t pos, size_t lo, size_t hi)
+inline NameWalk walkName(const Bytes &m, size_t pos, size_t lo, size_t hi, bool capture = true)
 {
   NameWalk w;
   size_t size = m.size();
   bool jumped = false;
   size_t p = pos;
-  std::vector<size_t> seen; // pointer positions already followed
+  size_t seenBuf[16];
+  size_t nseen = 0;
+  std::vector<size_t> seenMore; // pointer positions already followed (beyond the first 16)
   (void)lo;
   for (;;)
   {
@@ -514,13 +516,22 @@ inline NameWalk walkName(const Bytes &m, size_t pos, size_t lo, size_t hi)
         w.st = NS_PTR_OOB;
         return w;
       }
-      for (size_t s : seen)
+      for (size_t i = 0; i < nseen; ++i)
+        if (seenBuf[i] == p)
+        {
+          w.st = NS_PTR_LOOP;
+          return w;
+        }
+      for (size_t s : seenMore)
         if (s == p)
         {
           w.st = NS_PTR_LOOP;
           return w;
         }
-      seen.push_back(p);
+      if (nseen < 16)
+        seenBuf[nseen++] = p;
+      else
+        seenMore.push_back(p);
       if (tgt >= p)
         w.forward = true;
       p = tgt;
@@ -542,7 +553,8 @@ inline NameWalk walkName(const Bytes &m, size_t pos, size_t lo, size_t hi)
       w.st = NS_TRUNC;
       return w;
     }
-    w.name.labels.push_back(m.substr(p + 1, c));
+    if (capture)
+      w.name.labels.push_back(m.substr(p + 1, c));
     w.wireLen += 1 + c;
     p += 1 + c;
   }
@@ -568,14 +580,17 @@ struct RefDecoded
 inline unsigned rd16(const Bytes &m, size_t p) { return ((unsigned char)m[p] << 8) | (unsigned char)m[p + 1]; }
 inline uint32_t rd32(const Bytes &m, size_t p) { return (uint32_t(rd16(m, p)) << 16) | rd16(m, p + 2); }
 
-inline RefDecoded refDecode(const Bytes &m)
+// full = false: walk only (statuses, bad-pointer analysis, strictness) without materialising names and records
+inline RefDecoded refDecode(const Bytes &m, bool full = true)
 {
   RefDecoded d;
   auto failName = [&](const NameWalk &w, const char *site, uint16_t type) -> bool
   {
     if (w.st == NS_OK)
       return false;
-    if ((w.st == NS_PTR_OOB || w.st == NS_PTR_LOOP) && !d.badPointer)
+    // NS is not a supported (typed) record of the library: its RDATA is opaque to it, so a pointer inside is not
+    // on a path that has to be read
+    if ((w.st == NS_PTR_OOB || w.st == NS_PTR_LOOP) && !d.badPointer && !(type == T_NS && site[0] == 'r'))
     {
       d.badPointer = true;
       d.badSite = site;
@@ -610,7 +625,7 @@ inline RefDecoded refDecode(const Bytes &m)
   d.msg.hasQuestion = d.counts[0] > 0;
   for (unsigned q = 0; q < d.counts[0]; ++q)
   {
-    NameWalk w = walkName(m, p, p, size);
+    NameWalk w = walkName(m, p, p, size, full);
     if (failName(w, "qname", 0))
     {
       d.fail = "question name";
@@ -638,7 +653,7 @@ inline RefDecoded refDecode(const Bytes &m)
     {
       RecSpec r;
       r.section = sec;
-      NameWalk w = walkName(m, p, p, size);
+      NameWalk w = walkName(m, p, p, size, full);
       if (failName(w, "owner", 0))
       {
         d.fail = "owner name";
@@ -663,7 +678,8 @@ inline RefDecoded refDecode(const Bytes &m)
         return d;
       }
       size_t rs = p, re = p + rdlen;
-      r.rdataRaw = m.substr(rs, rdlen);
+      if (full)
+        r.rdataRaw = m.substr(rs, rdlen);
       p = re; // framing continues whatever the RDATA holds
       // typed view; a record whose RDATA does not fit its type's format makes the message non-strict
       std::string bad;
@@ -675,7 +691,7 @@ inline RefDecoded refDecode(const Bytes &m)
           bad = "RDATA name missing";
           return false;
         }
-        NameWalk nw = walkName(m, q, rs, re);
+        NameWalk nw = walkName(m, q, rs, re, full);
         if (failName(nw, "rdata", r.type))
         {
           bad = "RDATA name";
@@ -693,7 +709,8 @@ inline RefDecoded refDecode(const Bytes &m)
           bad = "character-string overruns RDATA";
           return false;
         }
-        out = m.substr(q + 1, (unsigned char)m[q]);
+        if (full)
+          out = m.substr(q + 1, (unsigned char)m[q]);
         q += 1 + (unsigned char)m[q];
         return true;
       };
@@ -702,13 +719,15 @@ inline RefDecoded refDecode(const Bytes &m)
       case T_A:
         if (rdlen != 4)
           bad = "A length";
-        r.addr = r.rdataRaw;
+        if (full)
+          r.addr = r.rdataRaw;
         q = re;
         break;
       case T_AAAA:
         if (rdlen != 16)
           bad = "AAAA length";
-        r.addr = r.rdataRaw;
+        if (full)
+          r.addr = r.rdataRaw;
         q = re;
         break;
       case T_NS:
@@ -756,12 +775,14 @@ inline RefDecoded refDecode(const Bytes &m)
         while (q < re && bad.empty())
         {
           Bytes s;
-          if (cstr(s))
+          if (cstr(s) && full)
             r.strings.push_back(s);
         }
         break;
       case T_SOA:
-        if (rdName(r.n1) && rdName(r.n2))
+        if (rdlen < 22) // two names + five 32-bit fields: a decoder may reject on length before reading any name
+          bad = "SOA length";
+        else if (rdName(r.n1) && rdName(r.n2))
         {
           if (q + 20 > re)
             bad = "SOA numeric fields truncated";
@@ -774,14 +795,16 @@ inline RefDecoded refDecode(const Bytes &m)
         }
         break;
       default:
-        r.addr = r.rdataRaw;
+        if (full)
+          r.addr = r.rdataRaw;
         q = re;
       }
       if (bad.empty() && q != re)
         bad = "RDATA not exactly consumed";
       if (!bad.empty() && d.lax.empty())
         d.lax = std::string(typeName(r.type)) + ": " + bad;
-      d.msg.recs.push_back(r);
+      if (full)
+        d.msg.recs.push_back(r);
     }
   d.ok = true;
   if (p != size && d.lax.empty())
